@@ -206,6 +206,60 @@ def oracle(case, rec):
 
 
 @st.composite
+def refmodel_case(draw):
+    """Interaction features listed by a reference model (--reference_model_JSON): combinations of 2-4 features, also of another order than
+    --interaction_order, with a prior (surrogate) or a non-prior heuristic name."""
+    case = draw(case_strategy())
+    k = len(case['cols'])
+    sizes = [z for z in (2, 3, 4) if z <= k]
+    combos = draw(st.lists(st.sampled_from(sizes).flatmap(lambda z: st.permutations(list(range(k))).map(lambda p: list(p[:z]))),
+                           min_size=1, max_size=3))
+    case['ref_combos'] = combos
+    case['order'] = draw(st.sampled_from([1, 2, 2, 3]))
+    case['ref_heuristic'] = draw(st.sampled_from(['MI-numba-randomized', 'surrogate-SGD']))
+    case['prior'], case['dtype'], case['index'] = 0, 'str', 'range'
+    return case
+
+
+def oracle_refmodel(case, rec):
+    import os
+    import tempfile
+    df, feat = build(case)
+    before = df.copy(deep=True)
+    order = min(int(case['order']), len(feat))
+    combos = [tuple(sorted(feat[i] for i in c)) for c in case['ref_combos']]
+    fd, path = tempfile.mkstemp(prefix='c10-ref-', suffix='.json')
+    with os.fdopen(fd, 'w') as fh:
+        json.dump({'desc': {'features': [','.join(feat[i] for i in c) for c in case['ref_combos']] + [feat[0]], 'fields': []}}, fh)
+    try:
+        args = stubs.make_args(interaction_order=order, combination_number_upper_bound=int(case['cap']), heuristic=case['ref_heuristic'],
+                               reference_model_JSON=path)
+        stubs.reset_globals()
+        out = cr.compute_combined_features(df, args, stubs.PBar())
+    finally:
+        os.unlink(path)
+    rec.nt(any(len(c) != order for c in combos), key=case)
+    rec.cls('reference-combinations', 'prior-heuristic' if 'surrogate' in case['ref_heuristic'] else 'non-prior-heuristic')
+    if list(out.columns[:df.shape[1]]) != list(df.columns) or not out[list(df.columns)].equals(before):
+        raise Violation('original columns are not preserved as a prefix of the result', kind='C10/originals')
+    new_cols = list(out.columns[df.shape[1]:])
+    for combo in dict.fromkeys(combos):
+        name = ' AND '.join(combo)
+        if name not in new_cols:
+            raise Violation(f'reference-model combination {combo} has no column {name!r}: new columns {new_cols}', kind='C10/columns')
+        tuples = [tuple(df[c].iloc[i] for c in combo) for i in range(len(df))]
+        t2v, v2t = {}, {}
+        for i, (t, v) in enumerate(zip(tuples, out[name].tolist())):
+            if t2v.setdefault(t, v) != v or v2t.setdefault(v, t) != t:
+                raise Violation(f'{name!r} (reference-model combination of {len(combo)} features, --interaction_order {order}): row {i} with '
+                                f'values {t!r} has interaction value {v!r}; seen before: {t2v.get(t)!r} for these values, {v2t.get(v)!r} for this '
+                                f'interaction value', kind='C10/iff')
+    if 'surrogate' not in case['ref_heuristic'] and set(new_cols) != {' AND '.join(c) for c in combos}:
+        raise Violation(f'non-prior heuristic with a reference model: new columns {new_cols}, expected exactly the model combinations '
+                        f'{sorted(set(" AND ".join(c) for c in combos))}', kind='C10/columns')
+
+
+@st.composite
 def wide_case(draw):
     """Production-size batch: two id-like columns whose joint values are all distinct. Any digest narrower than the stated
     64 bits collides here with near certainty (32 bits: P(no collision) < 1e-4 at 3*10^5 rows)."""
@@ -328,8 +382,10 @@ KINDS = ['C10/interaction', 'C10/originals', 'C10/columns', 'C10/iff', 'C10/scor
 ORACLES = {k: oracle for k in KINDS}
 ORACLES['C10/wide-digest'] = oracle_wide
 ORACLES['C10/names'] = oracle_wide
+ORACLES['C10/reference-combinations'] = oracle_refmodel
 
 
 def run(ctx):
     drive(ctx, [Clause('C10/interaction', case_strategy, oracle, quick=1200, thorough=40000, quick_shards=8),
+                Clause('C10/reference-combinations', refmodel_case, oracle_refmodel, quick=300, thorough=12000, quick_shards=4),
                 Clause('C10/wide-digest', wide_case, oracle_wide, quick=12, thorough=128, quick_shards=6, thorough_shards=16)])
